@@ -164,6 +164,18 @@ func c18Votes(absent ...int) []lab.Vote {
 	return out
 }
 
+// c18VotesWithout is c18Votes with validator `omit` left out of the commit altogether (the app
+// knows it as a validator, the commit info does not list it: neither signed nor absent).
+func c18VotesWithout(omit int, absent ...int) []lab.Vote {
+	var out []lab.Vote
+	for _, v := range c18Votes(absent...) {
+		if v.Addr != TmAddr(Pub(omit)) {
+			out = append(out, v)
+		}
+	}
+	return out
+}
+
 func c18Env(name string, absent []int, evidence ...types.TmAddress) EnvSpec {
 	return EnvSpec{Name: name, Env: lab.Env{Votes: c18Votes(absent...), Evidence: evidence}}
 }
@@ -326,6 +338,7 @@ func init() {
 				c18Env("v3,v4 absent", []int{3, 4}),
 				c18Env("nobody signs", []int{1, 2, 3, 4}),
 				c18Env("evidence [v4]", nil, v(4)),
+				{Name: "v1 not listed in the commit", Env: lab.Env{Votes: c18VotesWithout(1)}},
 			}
 			w.Menu = []Tx{feeSend, c18SetOff("vc3 sets v3 off", c18Control(3), 3)}
 			return w
